@@ -44,7 +44,8 @@ PROPS = {
         "level": "other",
         "explanation": "totality and bounded allocation of the decoders decided by panic/allocation reachability over "
                        "the resolved call graph with generic discharge arguments; encoder/decoder layout, tag and "
-                       "KeyBytes pairing extracted from the MIR of both sides and compared",
+                       "KeyBytes pairing extracted from the MIR of both sides and compared; a decoder's error exits are "
+                       "end-of-input, unknown tag or failing callee (no bound on a decoded value that no encoder enforces)",
         "not_decided": "the round-trip value law itself; lossy `len() as u32` casts above 4 GiB are listed as an assumption",
     },
     "C10": {
@@ -67,7 +68,8 @@ PROPS = {
                        "behind the apply step or mutation-free (and reports accordingly), the apply body performs the "
                        "BTreeMap operation the op denotes with the transaction's own key/hash/size (taint), reads "
                        "resolve by copy-only chains through BTreeMap::get, the read view hands out the map's own "
-                       "iterators, closed world",
+                       "iterators, closed world; no operation removes a directory under cas/ that a later "
+                       "publish relies on",
         "not_decided": "equality of results with a model over histories; BTreeMap itself; byte contents (C04, C06, "
                        "C18); aborts (C13)",
     },
@@ -138,7 +140,8 @@ PROPS = {
         "level": "other",
         "explanation": "effect confinement: transitive may-effects (fs effects by path class, lock "
                        "acquisitions, container events) of the non-consuming transaction API and of the drop "
-                       "glue, over the resolved call graph incl. drop glue and callbacks",
+                       "glue, over the resolved call graph incl. drop glue and callbacks; the staging file gets a "
+                       "random name and is created exclusively (no key-derived name)",
         "not_decided": "run-time directory listings; exactness of 'only its own intent' is C04-R5",
     },
     "C06": {
